@@ -60,7 +60,17 @@ import itertools as _it  # noqa: E402
 _SERIAL = _it.count(1000)
 
 
+class Holder14(HasTraits):
+    dnode = Instance(Node14, ())
+    dnodes = List(Instance(Node14))
+
+
 class Owner14(HasTraits):
+    #: prototyped from object-valued traits of another object: a local
+    #: override is this object's own (mutable) state
+    holder = Instance(Holder14, ())
+    dnode = PrototypedFrom("holder")
+    dnodes = PrototypedFrom("holder")
     #: prototyped from zholder.value and declared BEFORE the trait holding
     #: its prototype (copying goes by declaration order)
     aproto = PrototypedFrom("zholder", prefix="value")
@@ -117,7 +127,8 @@ class WithUUID(HasTraits):
 
 
 NAMES = ["xs", "nested", "dl", "st", "node", "node2", "ro", "mp", "refl",
-         "shn", "dpn", "nodes", "kd", "uid", "ml", "zholder"]
+         "shn", "dpn", "nodes", "kd", "uid", "ml", "zholder", "dnode",
+         "dnodes"]
 
 EVENTS = [
     ("xs_assign",), ("xs_append",), ("xs_pop",),
@@ -128,7 +139,7 @@ EVENTS = [
     ("tr_set",), ("ro_set",), ("mp_set",), ("refl_set",), ("shn_set",),
     ("dpn_set",), ("nodes_append",), ("nodes_share",), ("read_total",),
     ("kd_set_new",), ("kd_set_node",), ("pval_set",), ("aproto_set",),
-    ("ml_set",),
+    ("ml_set",), ("dnode_set",), ("dnodes_set",),
 ]
 
 
@@ -212,6 +223,10 @@ def apply(o, ev):
         o.aproto = 55
     elif k == "ml_set":
         o.ml = [1, 2]
+    elif k == "dnode_set":
+        o.dnode = Node14(value=9, tags=["d"])
+    elif k == "dnodes_set":
+        o.dnodes = [Node14(value=10), Node14(value=11)]
     elif k == "kd_set_new":
         o.kd[Node14(value=8)] = 1
     elif k == "kd_set_node":
@@ -342,6 +357,8 @@ def check_copy(ctx, o, how, hist):
     must_reject("st.add", lambda: d.st.add("bad"))
     must_reject("nodes.append", lambda: d.nodes.append(5))
     must_reject("refl.append", lambda: d.refl.append("bad"))
+    must_reject("dnodes.append", lambda: d.dnodes.append(5))
+    must_reject("dnode.tags.append", lambda: d.dnode.tags.append(5))
     must_reject("mp=", lambda: setattr(d, "mp", "zzz"))
     if d.node is not None:
         must_reject("node.tags.append", lambda: d.node.tags.append(5))
@@ -493,7 +510,8 @@ SPECIAL = ["p_plain", "p_valid", "p_ro", "dlg", "ev", "evi", "k", "ro",
            "ro5", "an", "an_none", "an_ident"]
 ROUND = ["pickle%d" % p for p in range(6)] + ["copy", "deepcopy"]
 SCRIPT_VALUES = ["i1", "i2", "sa", "None", "f1.5", "True", "t(1,a)", "l[1]",
-                 "A0", "fnan", "i3", "sab", "f0.5", "fn", "clsB"]
+                 "A0", "fnan", "i3", "sab", "f0.5", "fn", "clsB", "C0",
+                 "FOO0"]
 
 
 def grid_kinds():
@@ -531,7 +549,8 @@ def script(ct):
         try:
             r = f()
             trace.append(("ok", type(r).__name__, repr(r)[:60]
-                          if not isinstance(r, HasTraits) else "obj"))
+                          if not isinstance(r, HasTraits) and
+                          "object at" not in repr(r) else "obj"))
         except TraitError:
             trace.append(("TraitError",))
         except AttributeError:
@@ -546,6 +565,7 @@ def script(ct):
         v = L.value(lbl)
         rec(lambda: setattr(h, "x", v))
         rec(lambda: h.x)
+        rec(lambda: h.x_)           # the shadow value, where there is one
     rec(lambda: delattr(h, "x"))
     rec(lambda: h.x)
     rec(lambda: setattr(h, "x", 1))
